@@ -744,7 +744,9 @@ fn main() {
             let t = 250_000i64;
             let g5: Vec<Option<i64>> = vec![None, Some(t - 1), Some(t), Some(t + 1), Some(2 * t)];
             let g7: Vec<Option<i64>> = vec![None, Some(0), Some(t - 1), Some(t), Some(t + 1), Some(2 * t), Some(2 * t + 1)];
-            if thorough {
+            if a.rest.iter().any(|x| x == "noexh") {
+                // (the exhaustive family belongs to C02)
+            } else if thorough {
                 exhaustive(1, 1, &g7, thr, 1, &mut rng);
                 exhaustive(1, 2, &g7, thr, 1, &mut rng);
                 exhaustive(2, 1, &g7, thr, 1, &mut rng);
